@@ -124,7 +124,7 @@ def CONFORMS(d: object, s: object, ns: dict, o: dict) -> bool:
     if t == "float" or t == "double":
         return (isinstance(d, int) or isinstance(d, float)) and not isinstance(d, bool)
     if t == "bytes":
-        return isinstance(d, bytes)
+        return isinstance(d, (bytes, bytearray))
     if t == "string":
         return isinstance(d, str)
     if isinstance(s, list):
@@ -135,16 +135,23 @@ def CONFORMS(d: object, s: object, ns: dict, o: dict) -> bool:
         if t == "enum":
             return d in s["symbols"]
         if t == "array":
-            return isinstance(d, (list, tuple)) and ALL_CONFORM(seq_items(d), s["items"], ns, o, 0)
+            # non-string sequences: list, tuple, and (as sequences of ints) bytes / bytearray
+            return isinstance(d, (list, tuple, bytes, bytearray)) and ALL_CONFORM(seq_items(d), s["items"], ns, o, 0)
         if t == "map":
             return isinstance(d, dict) and ALL_STR(list(d), 0) \
                 and ALL_CONFORM(list(d.values()), s["values"], ns, o, 0)
         if t == "record" or t == "error":
-            return isinstance(d, dict) and FIELDS_CONFORM(s["fields"], d, ns, o, 0)
+            return isinstance(d, dict) and HINT_OK(d, s) and FIELDS_CONFORM(s["fields"], d, ns, o, 0)
         return False
     if isinstance(s, str) and s in ns:
         return CONFORMS(d, ns[s], ns, o)
     return False
+
+
+@spec
+def HINT_OK(d: dict, s: dict) -> bool:
+    """a '-type' entry in a record datum names the record branch it is meant for (C09)"""
+    return "-type" not in d or d["-type"] == s["name"]
 
 
 @spec
@@ -538,3 +545,11 @@ def READ_OPTS_PLAIN(o: dict) -> bool:
     return (not o.get("return_record_name") and not o.get("return_record_name_override")
             and not o.get("return_named_type") and not o.get("return_named_type_override")
             and isinstance(o.get("handle_unicode_errors", "strict"), str))
+
+
+@spec
+def NO_BYTES_ARRAYS(d: object, s: object, ns: dict) -> bool:
+    """domain restriction of the deductive writer contracts: a datum written directly under
+    an array schema is a list or tuple (bytes-as-int-sequences are covered by the bounded
+    stand-in only)"""
+    return implies(TYPE(s) == "array", isinstance(d, (list, tuple)))
